@@ -163,6 +163,7 @@ def run(ctx):
   from rules import C12 as _c12      # a stream merged or searched as if it were sorted (heapq.merge, bisect) must be sorted whatever the storage order
   _c12.assumes_sorted_in(ctx, ('apply_sustain_control_changes',))
   pedal_state_always_recorded(ctx, fi)
+  total_time_never_lowered(ctx, fi)
   rank_in_sort_key(ctx, fi)       # location-independent rules first
   note_off_removes_one(ctx, fi)
   threshold_scenarios(ctx, fi, 'THRESHOLD/scenarios')
@@ -201,6 +202,37 @@ def run(ctx):
         if fname == fi.name and (txt is None or norm_text(st) == txt) and any(needle in t for t in tests):
           ok, why = True, 'allow-listed: ' + reason
     ctx.ob('PAIR/end-total', fi, st, ok, why, definite=(not ok and op == 'store' and C11._no_total_near(fi, st, totals)))
+
+
+def total_time_never_lowered(ctx, fi, rule='PAIR/total-time-never-lowered'):
+  """"the result equals the input except for extended note ends" - and a total_time raised to cover them.  Every store into the
+  copy's total_time either is guarded by `value > total_time` or takes a max that includes the old total_time.  A plain store of
+  "the latest note end" shortens a sequence whose total_time lay beyond its last note (trailing silence)."""
+  fn = fi.node
+  n = 0
+  for st in U.walk_stmts(fn):
+    if not (isinstance(st, ast.Assign) and len(st.targets) == 1 and isinstance(st.targets[0], ast.Attribute) and st.targets[0].attr == 'total_time'):
+      continue
+    n += 1
+    t = norm_text(st.targets[0])
+    v = st.value
+    vx = U.expand_locals(fn, v, at=st)
+    # a one-return helper of the module is read through
+    g = fi.module.functions.get(vx.func.id) if isinstance(vx, ast.Call) and isinstance(vx.func, ast.Name) else None
+    if g is not None:
+      body = [b for b in g.node.body if not (isinstance(b, ast.Expr) and isinstance(b.value, ast.Constant))]
+      if len(body) == 1 and isinstance(body[0], ast.Return) and body[0].value is not None:
+        vx = body[0].value
+    guarded = any(U.is_gt_guard(c, norm_text(v), t) for c in U.enclosing_tests(fn, st)) or any(p and isinstance(c, ast.Compare) and t in norm_text(c) and norm_text(v) in norm_text(c)
+                                                                                                  for c, p in U.path_conditions(fn, st))
+    keeps = any(isinstance(a, ast.Attribute) and a.attr == 'total_time' for a in ast.walk(vx))
+    cons = 'the store %s cannot lower total_time' % norm_text(st)[:50]
+    ok = guarded or keeps
+    ctx.ob(rule, fi, st, ok, 'guarded by a comparison with total_time' if guarded else ('the new value takes the old total_time into account' if keeps else '') if ok else
+           '`%s` overwrites total_time with a value that does not look at the old one (%s): a sequence whose total_time lies beyond its last note end - trailing silence, or no notes at all - '
+           'comes back shorter than it went in' % (norm_text(st)[:60], norm_text(vx)[:60]), construct=cons, definite=True)
+  if n == 0:
+    ctx.ob(rule, fi, fn, True, 'apply_sustain_control_changes never stores a total_time', construct='total_time is never lowered')
 
 
 def pedal_state_always_recorded(ctx, fi, rule='BRANCH/pedal-state-always-recorded'):
